@@ -240,6 +240,28 @@ class CFGBuilder(AstVisitor[BB | None]):
         builder.bb.statements.append(node)
         return builder.bb
 
+    def _bind_outer_indices(self, target: ast.expr, builder: "ExprBuilder") -> None:
+        """Stores the index expressions of the subscripts that enclose the final subscript
+        of an augmented assignment target (`xs[f()][g()] += v`) in temporaries, from left
+        to right.
+
+        The index of the final subscript is stored in a temporary in front of the
+        statement. Python evaluates the enclosing indices before that one, so they have
+        to be evaluated even earlier.
+        """
+        if not isinstance(target, ast.Subscript):
+            return
+        enclosing = []
+        obj: ast.expr = target.value
+        while isinstance(obj, ast.Subscript | ast.Attribute):
+            if isinstance(obj, ast.Subscript):
+                enclosing.append(obj)
+            obj = obj.value
+        for sub in reversed(enclosing):
+            if not isinstance(sub.slice, ast.Name | ast.Constant):
+                builder.build_operands([(sub, "slice")])
+                sub.slice = builder.bind(sub.slice)
+
     def visit_AugAssign(self, node: ast.AugAssign, bb: BB, jumps: Jumps) -> BB | None:
         builder = ExprBuilder(self.cfg, bb)
         stmt: ast.AugAssign | ast.Assign = node
@@ -259,6 +281,7 @@ class CFGBuilder(AstVisitor[BB | None]):
             # it evaluates the right-hand side, but the branches of the right-hand side
             # are built in front of this statement. Load the old value first and turn
             # the statement into `xs[i] = old + rhs`
+            self._bind_outer_indices(node.target, builder)
             targets = self._assign_target_operands(node.target)
             builder.build_operands(targets)
             if isinstance(node.target, ast.Subscript) and not isinstance(
@@ -274,6 +297,7 @@ class CFGBuilder(AstVisitor[BB | None]):
         else:
             # For augmented assignments the target is evaluated before the right-hand
             # side
+            self._bind_outer_indices(node.target, builder)
             targets = self._assign_target_operands(node.target)
             builder.build_operands(targets)
             # `xs[i] += v` is later expanded to `xs[i] = xs[i] + v`, which mentions the
